@@ -295,7 +295,15 @@ class MPIRun:
         global EST
         cfg = self.cfg
         if self.serial is None:
-            self.serial = run_serial(cfg)
+            try:
+                self.serial = run_serial(cfg)
+            except ZeroDivisionError:
+                # a relative residual type on a level whose initial value is identically zero (e.g. the sine initial
+                # condition sampled on a 2-point coarse grid): the serial reference itself is undefined, nothing to compare
+                self.serial = {'skip': 'relative residual with zero initial value'}
+        if 'skip' in self.serial:
+            ctx.trace  # no choice points
+            return Outcome([], [], ('skipped', self.serial['skip']), extra={'points': 0, 'counts': {}, 'unmatched_sends': None, 'unwaited': None})
         EST = {tuple(k): v for k, v in cfg['script']} if isinstance(cfg['script'], list) else dict(cfg['script'])
         n = nranks(cfg)
         sim = simmpi.Sim(n, ctx, eager=cfg['eager'], early_collectives=cfg['early'])
